@@ -6,7 +6,7 @@
    Section closes).  The OCaml driver passes OCaml's Digest (MD5); the theorems hold for every
    function.  HMAC-MD5 is defined here from it (RFC 2104, block size 64).
 
-   The model carries six repair flags (true = repaired behaviour).  Five of them describe fixes that are
+   The model carries seven repair flags (true = repaired behaviour).  Five of them describe fixes that are
    committed in /repo (7e62e2a, db29b2a, 331235d, 6f22cf3, 3a9d01d); their [false] branches are kept only for the historical
    [_refuted] witnesses in Properties.v and are not used by the correspondence check:
      f_reply    transport.go readLoop verifies Response Authenticator + Message-Authenticator
@@ -15,10 +15,12 @@
      f_dmwin    the Event-Timestamp replay window also applies to Disconnect-Request
      f_white    a CoA whose attribute delta leaves the documented mutable set is NAKed (401)
      f_dedup    an authenticated request is executed once; a byte-identical copy gets the cached reply (3a9d01d)
-   One describes the finding still recorded as known (not fixed in /repo):
+   Two describe findings recorded as known (not fixed in /repo):
      f_tsreq    while the replay window is enabled a request without a usable Event-Timestamp is discarded
                 (coa-without-event-timestamp-bypasses-window)
-   [repaired] = all true (full theorems); [head] = /repo HEAD = all true except f_tsreq. *)
+     f_ttl      a duplicate-cache entry outlives the replay window of its request: lifetime 2*window + 1 s instead
+                of 2*window (coa-duplicate-cache-expires-inside-window)
+   [repaired] = all true (full theorems); [head] = /repo HEAD = all true except f_tsreq and f_ttl. *)
 From Coq Require Import String Ascii.
 From OV Require Import Common.Base.
 Import ListNotations.
@@ -27,13 +29,16 @@ Local Open Scope N_scope.
 
 Definition bytes := list N.
 
-Record flags := { f_reply : bool; f_coaauth : bool; f_dmwin : bool; f_white : bool; f_tsreq : bool; f_dedup : bool }.
-Definition repaired : flags := {| f_reply := true; f_coaauth := true; f_dmwin := true; f_white := true; f_tsreq := true; f_dedup := true |}.
+Record flags := { f_reply : bool; f_coaauth : bool; f_dmwin : bool; f_white : bool; f_tsreq : bool; f_dedup : bool; f_ttl : bool }.
+Definition repaired : flags := {| f_reply := true; f_coaauth := true; f_dmwin := true; f_white := true; f_tsreq := true; f_dedup := true; f_ttl := true |}.
 (* what /repo HEAD implements after the five C08 fix commits: everything but the Event-Timestamp requirement *)
-Definition head : flags := {| f_reply := true; f_coaauth := true; f_dmwin := true; f_white := true; f_tsreq := false; f_dedup := true |}.
+Definition head : flags := {| f_reply := true; f_coaauth := true; f_dmwin := true; f_white := true; f_tsreq := false; f_dedup := true; f_ttl := false |}.
+(* HEAD with exactly one of the two recorded findings (attribution of a mismatch to one finding) *)
+Definition head_nots : flags := {| f_reply := true; f_coaauth := true; f_dmwin := true; f_white := true; f_tsreq := false; f_dedup := true; f_ttl := true |}.
+Definition head_nottl : flags := {| f_reply := true; f_coaauth := true; f_dmwin := true; f_white := true; f_tsreq := true; f_dedup := true; f_ttl := false |}.
 (* the listener before commit 3a9d01d (no duplicate detection), everything else as on HEAD: historical witnesses only *)
-Definition pre_dedup : flags := {| f_reply := true; f_coaauth := true; f_dmwin := true; f_white := true; f_tsreq := false; f_dedup := false |}.
-Definition defective : flags := {| f_reply := false; f_coaauth := false; f_dmwin := false; f_white := false; f_tsreq := false; f_dedup := false |}.
+Definition pre_dedup : flags := {| f_reply := true; f_coaauth := true; f_dmwin := true; f_white := true; f_tsreq := false; f_dedup := false; f_ttl := false |}.
+Definition defective : flags := {| f_reply := false; f_coaauth := false; f_dmwin := false; f_white := false; f_tsreq := false; f_dedup := false; f_ttl := false |}.
 
 (* ------------------------------------------------------------------ byte helpers *)
 Fixpoint beq (a b : bytes) : bool :=
@@ -706,6 +711,85 @@ Definition coa_step_st (fl : flags) (rej : bool) (orep : option bytes) (cfg : co
     | None => (out, seen)
     end
   else (out, seen).
+
+(* ---- the duplicate cache with its LIFETIME and CAPACITY (replayCache.begin / finish / replayCacheTTL, coa.go).
+   Times are wall-clock milliseconds ([tnow]); the window test keeps using whole seconds ([now]).  [entries] is the
+   map key -> (reply once finished, expiry), [order] the insertion-ordered key slice including stale keys of entries
+   that were forgotten. *)
+Definition ckey := (bytes * bytes)%type.
+Definition ckey_eqb (a b : ckey) : bool := beq (fst a) (fst b) && beq (snd a) (snd b).
+Record rcache := { rc_entries : list (ckey * (option bytes * Z)); rc_order : list ckey }.
+Definition rcache0 : rcache := {| rc_entries := []; rc_order := [] |}.
+Fixpoint ent_find (k : ckey) (l : list (ckey * (option bytes * Z))) : option (option bytes * Z) :=
+  match l with
+  | [] => None
+  | (k', v) :: t => if ckey_eqb k k' then Some v else ent_find k t
+  end.
+Definition ent_del (k : ckey) (l : list (ckey * (option bytes * Z))) := filter (fun e => negb (ckey_eqb k (fst e))) l.
+Definition ent_set (k : ckey) (v : option bytes * Z) (l : list (ckey * (option bytes * Z))) := (k, v) :: ent_del k l.
+(* the pruning loop at the top of begin: pops the head of [order] while it is stale, expired, or the slice is over capacity *)
+Fixpoint prune (fuel max : nat) (tnow : Z) (c : rcache) : rcache :=
+  match fuel with
+  | O => c
+  | S f =>
+    match rc_order c with
+    | [] => c
+    | k :: rest =>
+      match ent_find k (rc_entries c) with
+      | Some (_, exp) =>
+        if (length (rc_order c) <=? max)%nat && (tnow <? exp)%Z then c
+        else prune f max tnow {| rc_entries := ent_del k (rc_entries c); rc_order := rest |}
+      | None => prune f max tnow {| rc_entries := rc_entries c; rc_order := rest |}
+      end
+    end
+  end.
+(* begin: Some r = duplicate (r = reply of the first copy, None while it is still being handled); None = registered *)
+Definition cache_begin (max : nat) (ttl tnow : Z) (k : ckey) (c : rcache) : option (option bytes) * rcache :=
+  let c1 := prune (length (rc_order c)) max tnow c in
+  match ent_find k (rc_entries c1) with
+  | Some (r, _) => (Some r, c1)
+  | None => (None, {| rc_entries := ent_set k (None, (tnow + ttl)%Z) (rc_entries c1); rc_order := rc_order c1 ++ [k] |})
+  end.
+Definition cache_finish (k : ckey) (reply : option bytes) (c : rcache) : rcache :=
+  match ent_find k (rc_entries c) with
+  | None => c
+  | Some (_, exp) =>
+    match reply with
+    | None => {| rc_entries := ent_del k (rc_entries c); rc_order := rc_order c |}
+    | Some r => {| rc_entries := ent_set k (Some r, exp) (rc_entries c); rc_order := rc_order c |}
+    end
+  end.
+Definition cache_ttl (fl : flags) (w : Z) : Z :=
+  if (0 <? w)%Z then (2 * w * 1000 + (if f_ttl fl then 1000 else 0))%Z else 600000%Z.
+Definition cache_max : nat := 4096.
+
+(* handleRequest with the timed cache ([max] is a parameter so that small capacities can be computed with) *)
+Definition coa_step_t (max : nat) (fl : flags) (rej : bool) (orep : option bytes) (cfg : coacfg) (now tnow : Z)
+           (src bus : N) (raw : bytes) (c : rcache) : coa_out * rcache :=
+  let out := coa_step_g fl rej orep cfg now src bus raw in
+  if f_dedup fl && reached_worker out then
+    match dedup_key cfg src raw with
+    | Some k =>
+      match cache_begin max (cache_ttl fl (window cfg)) tnow k c with
+      | (Some (Some cached), c1) =>
+        (match out with
+         | OReply cl _ _ _ | ODropInvalid cl _ | OSilent cl => OReply cl [] cached None
+         | ODropUnknown => out
+         end, c1)
+      | (Some None, c1) =>
+        (match out with
+         | OReply cl _ _ _ | ODropInvalid cl _ | OSilent cl => OSilent cl      (* first copy still in flight: dropped *)
+         | ODropUnknown => out
+         end, c1)
+      | (None, c1) =>
+        match out with
+        | OReply _ _ reply _ => (out, cache_finish k (Some reply) c1)
+        | _ => (out, cache_finish k None c1)
+        end
+      end
+    | None => (out, c)
+    end
+  else (out, c).
 
 Definition coa_input := (Z * N * N * bytes * bool * option bytes)%type.   (* now, source, bus outcome, datagram, rej, orep (see coa_step_g) *)
 Fixpoint coa_run (fl : flags) (cfg : coacfg) (seen : cache) (ins : list coa_input) : list coa_out :=
